@@ -257,6 +257,41 @@ def stale_replies(ctx, rng):
         rig.close()
 
 
+def slow_slave(ctx):
+    """A slave that needs 0.7 s per answer is not silent when the application allows 20 s."""
+    import time
+    import canopen.lss as L
+    from canopen.lss import LssError
+    ident = [0x11111111, 0x22222222, 0x33333333, 0x44444444]
+    vt = VirtualTime()
+    L.time = vt
+    bus = simbus.SimBus(mode="threaded")
+    net, st = simbus.make_network(bus, "master")
+    net.lss.RESPONSE_TIMEOUT = 20.0
+    slave = LssSlave(ident)
+
+    class Slow(LssActor):
+        def on_frame(self, frame, station):
+            if frame.can_id == self.rx:
+                time.sleep(0.7)
+            super().on_frame(frame, station)
+    bus.actor_station("slave", Slow(slave))
+    ctx.case(("slow-slave",), nontrivial=True)
+    ctx.count("service_calls")
+    ok = True
+    try:
+        net.lss.send_switch_state_global(net.lss.CONFIGURATION_STATE)
+        got = net.lss.inquire_lss_address(L.CS_INQUIRE_PRODUCT_CODE)
+        if got != ident[1]:
+            ok = False
+            ctx.violation("inquire-wrong-value", f"slow slave: inquire returned {got:#x}", {"workload": "slow-slave"})
+    except LssError as exc:
+        ok = False
+        ctx.violation("slow-slave-treated-as-silent", f"the slave answered after 0.7 s, RESPONSE_TIMEOUT is 20 s, yet the call raised {exc!r}", {"workload": "slow-slave"})
+    bus.close()
+    return ok
+
+
 def selective(ctx, rng):
     for _ in range(6):
         ident = [rng.getrandbits(32) for _ in range(4)]
@@ -288,6 +323,8 @@ def selective(ctx, rng):
 def run(ctx, desc):
     rigs.LogCapture()
     rng = random.Random(repr(("c18", desc["cs"])))
+    if not slow_slave(ctx):
+        return          # the configured time-out is not honoured: everything below would only be slow
     idents = []
     if desc["part"] == 0:
         idents += [[0, 0, 0, 0], [0xFFFFFFFF] * 4]
